@@ -214,7 +214,7 @@ PROPERTIES = {
         explanation="writer and reader executed symbolically on the same in-memory text",
     ),
     "C20": dict(
-        engines="Z+B",
+        engines="ZB",
         claim="Reproducibility as a frame condition: every site of the package where iteration order of unordered collections, random numbers, "
               "uninitialised memory, the clock / identities / environment or threads can enter a result is enumerated from the current source on "
               "every run and matched with a checked disposition. Loops over sets are proved order-independent by the adjacent-swap lemma on the "
